@@ -128,24 +128,28 @@ Inductive rm_out :=
 | RMsg (is_req : bool) (p : payload) (grpc : bool)
 | RErr.                                  (* strconv.Atoi failed / neither :method nor :status *)
 
+(* the second half of readMessage (http2_assembler.go:109): from the popped header fields and data *)
+Definition assemble (sid : N) (hs : list field) (data : bytes) : rm_out :=
+  let h := headers_of hs in
+  let text := b64enc data in
+  let method := hget s_method h in
+  let status := hget s_status h in
+  let grpc := is_grpc_header h in
+  if negb (is_nil method) then RMsg true (mkPayload true sid method 0%Z h text) grpc
+  else if negb (is_nil status) then
+    match atoi status with
+    | Some code => RMsg false (mkPayload true sid [] code h text) grpc
+    | None => RErr
+    end
+  else RErr.
+
 (* readMessage after a successful ReadFrame, http2_assembler.go:91 *)
 Definition read_message (m : fbs) (f : frame) : res (fbs * rm_out) :=
   let* m1 := append_frame m f in
   if negb (is_stream_end f) then Ok (m1, RNone) else
   let sid := frame_sid f in
   let* (hs, data, m2) := pop sid m1 in
-  let h := headers_of hs in
-  let text := b64enc data in
-  let method := hget s_method h in
-  let status := hget s_status h in
-  let grpc := is_grpc_header h in
-  if negb (is_nil method) then Ok (m2, RMsg true (mkPayload true sid method 0%Z h text) grpc)
-  else if negb (is_nil status) then
-    match atoi status with
-    | Some code => Ok (m2, RMsg false (mkPayload true sid [] code h text) grpc)
-    | None => Ok (m2, RErr)
-    end
-  else Ok (m2, RErr).
+  Ok (m2, assemble sid hs data).
 
 (* ------------------------------------------------------------------ matcher (matcher.go) *)
 (* key: pairing number (request/response counter or stream id) and the proto ident HTTP1 / HTTP2;
@@ -188,12 +192,15 @@ Definition handle_h2 (is_req : bool) (p : payload) (grpc : bool) (m : mstate) : 
       (m', [mkItem (if g then VGrpc else VHttp2) rq rs is_req])
   end.
 
-(* assembler run over a frame list (one half, no errors): messages in completion order *)
-Fixpoint run_asm (m : fbs) (fs : list frame) : res (fbs * list (bool * payload * bool)) :=
+(* assembler run over a frame list (one half, every ReadFrame succeeds): results in order *)
+Fixpoint run_asm (m : fbs) (fs : list frame) : res (fbs * list (N * rm_out)) :=
   match fs with
   | [] => Ok (m, [])
   | f :: t =>
       let* (m1, o) := read_message m f in
-      let* (m2, ms) := run_asm m1 t in
-      Ok (m2, match o with RMsg r p g => (r, p, g) :: ms | _ => ms end)
+      let* (m2, os) := run_asm m1 t in
+      Ok (m2, match o with RNone => os | _ => (frame_sid f, o) :: os end)
   end.
+(* what readMessage returned for stream s, in order *)
+Definition results_of (s : N) (os : list (N * rm_out)) : list rm_out :=
+  map snd (filter (fun x => fst x =? s) os).
